@@ -419,7 +419,12 @@ func runOnce(data []byte, claimed int64, useRA bool, budgetx int64, maxSeeks int
 		res.Phase = name
 		r := &rac.Reader{ReadSeeker: mk(), CompressedSize: claimed, CodecReaders: codecs}
 		h := sha256.New()
-		buf := make([]byte, 256)
+		// The end of buf must not be the end of its allocation: lib/cgozlib keeps
+		// its z_stream in Go memory, zlib advances next_out to one past the end
+		// of the buffer there, and a concurrent GC scan then dies with "marking
+		// free object" (known finding cgozlib-zstream-in-go-memory; -cgostress
+		// reproduces it).  Generators avoid only this exact construct.
+		buf := make([]byte, 256+64)[:256]
 		n := int64(0)
 		out.Zero = true
 		idle := 0
@@ -576,7 +581,12 @@ func main() {
 	only := flag.String("only", "", "comma separated case ids to run (others skipped)")
 	wallMs := flag.Int("wallms", 5000, "watchdog per run in ms (multiplied by budgetx)")
 	workers := flag.Int("workers", runtime.NumCPU(), "parallel cases")
+	cgostress := flag.Int("cgostress", 0, "seconds of the cgozlib GC stress (known finding), 0 = off")
 	flag.Parse()
+	if *cgostress > 0 {
+		stress(time.Duration(*cgostress) * time.Second)
+		return
+	}
 
 	onlySet := map[int]bool{}
 	if *only != "" {
